@@ -69,7 +69,7 @@ def lake_build(ctx, targets):
 
 
 # property theorems may be spread over several files (statements added later live in their own module)
-PROP_MODULES = {"C07": ["C07", "C07impl"], "C02": ["C02", "C02rec", "C02sf", "Paths"], "C12": ["C12", "C12nested"], "C09": ["C09", "C09e2e", "C09nested"], "C03": ["C03", "C03e2e", "C03nested"], "C06": ["C06", "C06seq", "Civil"], "C18": ["C18", "C18e2e"], "C17": ["C17", "C17detect"], "C08": ["C08", "C08part"], "C04": ["C04", "C04nested"], "C05": ["C05", "C05e2e"], "C19": ["C19", "C19seq"], "C16": ["C16", "Civil"], "C15": ["C15", "CrashRun"]}
+PROP_MODULES = {"C07": ["C07", "C07impl"], "C02": ["C02", "C02rec", "C02sf", "Paths"], "C12": ["C12", "C12nested"], "C09": ["C09", "C09e2e", "C09nested"], "C03": ["C03", "C03e2e", "C03nested"], "C06": ["C06", "C06seq", "Civil"], "C18": ["C18", "C18e2e", "C18order"], "C17": ["C17", "C17detect"], "C08": ["C08", "C08part"], "C04": ["C04", "C04nested"], "C05": ["C05", "C05e2e"], "C19": ["C19", "C19seq"], "C16": ["C16", "Civil"], "C15": ["C15", "CrashRun"]}
 
 
 def modules_for(prop):
